@@ -186,6 +186,10 @@ impl Run {
     pub fn merge(&self, s: State) {
         self.st.lock().unwrap().merge(s);
     }
+    /// value of a counter merged so far (between workloads)
+    pub fn counter(&self, key: &str) -> u64 {
+        self.st.lock().unwrap().get(key)
+    }
     pub fn threads() -> usize {
         std::env::var("VERIF_THREADS").ok().and_then(|s| s.parse().ok()).unwrap_or_else(|| {
             std::thread::available_parallelism().map(|n| n.get()).unwrap_or(4)
@@ -350,6 +354,13 @@ impl Run {
         }
         std::process::exit(0);
     }
+}
+
+/// Does an error / panic message report that the public coin ran out of rejection-sampling attempts (its documented
+/// limit of 1000 per draw)? Only the cubic extension of the 62-bit field has a noticeable chance of this (about
+/// 1.4e-7 per draw); callers decide from the configuration whether the event is outside their claim.
+pub fn is_coin_exhaustion(msg: &str) -> bool {
+    msg.contains("FailedToDrawFieldElement") || msg.contains("failed to draw") || msg.contains("Failed to draw")
 }
 
 pub fn truncate(s: &str, n: usize) -> String {
